@@ -358,6 +358,7 @@ func allParkedInExecutor(dump string) (bool, string) {
 }
 
 type runner struct {
+	lastPanic string
 	tr       *tracer
 	watchdog time.Duration
 	baseG    int
@@ -516,7 +517,12 @@ func (r *runner) runCase(tc *testCase, rep int) (res caseResult, events []map[st
 		// C34: all permits are free again
 		probeGen++
 		if !r.permitsFree(exec, tc.Cfg.Par, probeGen) {
-			add(step, "permits", fmt.Sprintf("could not run %d probe queries concurrently after step %d", tc.Cfg.Par, step))
+			if r.lastPanic != "" {
+				add(step, "permits:panic", "probing the permits panicked: "+r.lastPanic)
+				r.lastPanic = ""
+			} else {
+				add(step, "permits", fmt.Sprintf("could not run %d probe queries concurrently after step %d", tc.Cfg.Par, step))
+			}
 		}
 		for _, er := range e.Runs {
 			if er.Panic {
@@ -587,7 +593,13 @@ func (r *runner) drain(max time.Duration) bool {
 	return true
 }
 
-func (r *runner) permitsFree(exec *incremental.Executor, par, gen int) bool {
+func (r *runner) permitsFree(exec *incremental.Executor, par, gen int) (free bool) {
+	defer func() {
+		if p := recover(); p != nil { // e.g. "semaphore: released more than held"
+			r.lastPanic = fmt.Sprint(p)
+			free = false
+		}
+	}()
 	r.tr.mu.Lock()
 	was := r.tr.on
 	r.tr.on = false // probe runs are not part of the modelled history
